@@ -408,7 +408,7 @@ func (in *inst) goStmt(s *ast.GoStmt) ast.Stmt {
 }
 
 // replaceSync substitutes the cooperative lock types for sync.Mutex,
-// sync.RWMutex and sync.Once wherever they are named, and keeps the sync
+// sync.RWMutex and sync.Once, and the deterministic pool for sync.Pool, wherever they are named, and keeps the sync
 // import used.
 func (in *inst) replaceSync(f *ast.File) {
 	importsSync := false
@@ -431,7 +431,7 @@ func (in *inst) replaceSync(f *ast.File) {
 			return true
 		}
 		switch se.Sel.Name {
-		case "Mutex", "RWMutex", "Once":
+		case "Mutex", "RWMutex", "Once", "Pool":
 			id.Name = simrtName
 			n++
 		}
